@@ -876,8 +876,8 @@ def run(ctx):
     warnings.filterwarnings('ignore')
     quick = ctx.tier == 'quick'
     widen = bool(ctx.broken)
-    # quick: use what is left of ~82 s after extraction / build / audit (between 25 and 50 s of scheduling)
-    budget_total = (max(25.0, min(62.0, 82.0 - (time.time() - ctx.t0))) if quick else 420.0) * (1.5 if widen else 1.0)
+    # quick: use what is left of ~68 s after extraction / build / audit (between 25 and 50 s of scheduling)
+    budget_total = (max(25.0, min(48.0, 68.0 - (time.time() - ctx.t0))) if quick else 420.0) * (1.5 if widen else 1.0)
     ctx.deadline = time.time() + budget_total
     programs = list(QUICK_PROGRAMS) + ([] if quick else list(THOROUGH_PROGRAMS))
     if not quick:
